@@ -14,9 +14,19 @@ def stage(fn, *a, **kw):
     return f
 
 
-def sized(prop, tier, name, ops, nslots, nblocks, frames, hows=("new", "newB", "unique")):
+def sized(prop, tier, name, ops, nslots, nblocks, frames, hows=("new", "newB", "unique"), simulate=None):
     cfg = S.sized_cfg(ops, nslots, nblocks, frames, list(hows))
-    return stage(S.graph_replay, prop, tier, name, "sized", "MC_Sized.tla", SIZED_MODULES, cfg, nslots)
+    return stage(S.graph_replay, prop, tier, name, "sized", "MC_Sized.tla", SIZED_MODULES, cfg, nslots, simulate=simulate)
+
+
+ALL_SIZED = BASE + CONV + BORROW + UNIQ + COW + UNWRAP
+
+
+def walks(prop, tier, seed, ops=None, hows=("new", "newB", "unique")):
+    """random walks (tlc -simulate) through the sized-family specification with more slots, blocks and
+    frame depth than the exhaustive configurations reach"""
+    n, d = (1000, 40) if tier == "quick" else (20000, 80)
+    return sized(prop, tier, "sized_walks_" + tier[0], ops or ALL_SIZED, 6, 4, 2, hows=hows, simulate=(n, d, seed))
 
 
 def mm(prop, tier, name, configs):
@@ -47,12 +57,42 @@ def c11(tier, seed):
             sized("C11", tier, "sized_raw_" + tier[0], ops, 3 if tier == "quick" else 4, 2, 1)]
 
 
+THIN_MODULES = ["Thin.tla", "MC_Thin.tla"]
+THIN_OPS = ["NewFat", "NewThin", "Clone", "Drop", "IntoThin", "FromThin", "ProtFromThin", "ProtIntoThin", "ThinIntoRaw",
+            "ThinFromRaw", "ThinIntoPtr", "ThinFromPtr", "Enter", "Exit", "Replace", "Swap", "GetMut"]
+
+
+def thin_cfg(ops, nslots, nblocks, frames, maxlen):
+    return "\n".join(["SPECIFICATION Spec", "CONSTANTS", "  NSlots = %d" % nslots, "  NBlocks = %d" % nblocks,
+                      "  MaxFrames = %d" % frames, "  MaxLen = %d" % maxlen, "  KeepHist = TRUE", "  Ops = %s" % S.tla_set(ops),
+                      "VIEW CanonView", "INVARIANT Invariants", "PROPERTY ActionsOK", "ACTION_CONSTRAINT Emit", "CHECK_DEADLOCK FALSE", ""])
+
+
+def thin(prop, tier, name, ops, nslots, nblocks, frames, maxlen, simulate=None):
+    return stage(S.graph_replay, prop, tier, name, "thin", "MC_Thin.tla", THIN_MODULES, thin_cfg(ops, nslots, nblocks, frames, maxlen), nslots,
+                 simulate=simulate)
+
+
+def c10(tier, seed):
+    if tier == "quick":
+        return [thin("C10", tier, "thin_q", THIN_OPS, 3, 2, 1, 1),
+                thin("C10", tier, "thin_walks_q", THIN_OPS, 6, 4, 2, 3, simulate=(1000, 40, seed)),
+                lay("C10", tier, "layout_matrix_q")]
+    return [thin("C10", tier, "thin_t", THIN_OPS, 4, 2, 2, 2),
+            thin("C10", tier, "thin_walks_t", THIN_OPS, 6, 4, 2, 3, simulate=(20000, 80, seed)),
+            lay("C10", tier, "layout_matrix_t")]
+
+
 def c01(tier, seed):
     if tier == "quick":
         return [sized("C01", tier, "sized_life_q", BASE + CONV + BORROW + ["TryUnique"], 3, 2, 1),
-                sized("C01", tier, "sized_life_q4", BASE + CONV_CORE + ["Borrow", "Enter", "Exit"], 4, 2, 1, hows=("new", "newB"))]
+                sized("C01", tier, "sized_life_q4", BASE + CONV_CORE + ["Borrow", "Enter", "Exit"], 4, 2, 1, hows=("new", "newB")),
+                walks("C01", tier, seed),
+                thin("C01", tier, "thin_life_q", THIN_OPS, 3, 2, 1, 1)]
     return [sized("C01", tier, "sized_life_t", BASE + CONV + BORROW + ["TryUnique"], 4, 2, 2),
-            sized("C01", tier, "sized_life_t5", BASE + CONV_CORE + ["Enter", "Exit"], 5, 2, 1, hows=("new", "newB"))]
+            sized("C01", tier, "sized_life_t5", BASE + CONV_CORE + ["Enter", "Exit"], 5, 2, 1, hows=("new", "newB")),
+            walks("C01", tier, seed),
+            thin("C01", tier, "thin_life_t", THIN_OPS, 4, 2, 2, 2)]
 
 
 def c03(tier, seed):
@@ -69,8 +109,10 @@ def c03(tier, seed):
 def c04(tier, seed):
     ops = BASE + CONV + BORROW + ["TryUnique", "MakeMut", "UnwrapOrClone"]
     if tier == "quick":
-        return [sized("C04", tier, "sized_count_q", ops, 3, 2, 1)]
-    return [sized("C04", tier, "sized_count_t", ops, 4, 2, 2)]
+        return [sized("C04", tier, "sized_count_q", ops, 3, 2, 1), walks("C04", tier, seed),
+                thin("C04", tier, "thin_count_q", THIN_OPS, 3, 2, 1, 1)]
+    return [sized("C04", tier, "sized_count_t", ops, 4, 2, 2), walks("C04", tier, seed),
+            thin("C04", tier, "thin_count_t", THIN_OPS, 4, 2, 2, 2)]
 
 
 def c08(tier, seed):
@@ -131,6 +173,7 @@ LAYOUT_ASSUME = [
 PROPS = {
     "C05": {"level": "model_checking", "stages": c05, "assumptions": LAYOUT_ASSUME, "replay": any_replay},
     "C11": {"level": "model_checking", "stages": c11, "assumptions": LAYOUT_ASSUME + GRAPH_ASSUME, "replay": any_replay},
+    "C10": {"level": "model_checking", "stages": c10, "assumptions": GRAPH_ASSUME + LAYOUT_ASSUME, "replay": any_replay},
     "C02": {"level": "model_checking", "stages": c02, "assumptions": MM_ASSUME, "replay": any_replay},
     "C01": {"level": "model_checking", "stages": c01, "assumptions": GRAPH_ASSUME, "replay": any_replay},
     "C03": {"level": "model_checking", "stages": c03, "assumptions": GRAPH_ASSUME + MM_ASSUME, "replay": any_replay},
